@@ -136,26 +136,49 @@ let parse_obs toks : obs =
      | _ -> raise (Parse "rep-st"))
   | _ -> raise (Parse ("obs: " ^ String.concat " " toks))
 
-(* ---- canonical printing (times excluded: the model's clock is logical) *)
+(* ---- canonical printing (times excluded: the model's clock is logical).
+   Each property compares only the projection of the observations it talks about. *)
+type rlevel = RFull | RCore | RIds | RNone
+type proj = { reports : rlevel; stats : bool; ctxs : bool; bools : bool; recs : bool }
+
+let proj_of = function
+  | "C01" | "C03" | "C04" | "C09" -> { reports = RCore; stats = false; ctxs = false; bools = false; recs = false }
+  | "C02" -> { reports = RIds; stats = false; ctxs = false; bools = false; recs = false }
+  | "C05" -> { reports = RCore; stats = false; ctxs = true; bools = false; recs = false }
+  | "C06" | "C13" | "C14" | "C15" -> { reports = RFull; stats = false; ctxs = true; bools = true; recs = false }
+  | "C07" -> { reports = RNone; stats = false; ctxs = false; bools = false; recs = false }
+  | "C08" -> { reports = RNone; stats = true; ctxs = false; bools = false; recs = false }
+  | "C10" | "C11" -> { reports = RIds; stats = false; ctxs = true; bools = false; recs = false }
+  | "C16" -> { reports = RCore; stats = false; ctxs = true; bools = true; recs = false }
+  | "C17" -> { reports = RFull; stats = false; ctxs = false; bools = false; recs = true }
+  | "C18" -> { reports = RIds; stats = false; ctxs = false; bools = true; recs = false }
+  | _ -> { reports = RFull; stats = true; ctxs = true; bools = true; recs = true }
+
 let props_str ps = String.concat "," (List.map (fun (k, v) -> Printf.sprintf "%d=%d" (int_of_n k) (int_of_n v)) ps)
 let event_str e = Printf.sprintf "%d[%s]" (int_of_n e.e_name) (props_str e.e_props)
-let record_str r =
-  Printf.sprintf "%s/%s/%s/%d{%s}(%s)" (hex_of_n r.rc_trace) (hex_of_n r.rc_id) (hex_of_n r.rc_parent)
-    (int_of_n r.rc_name) (props_str r.rc_props) (String.concat ";" (List.map event_str r.rc_events))
-let records_sorted rs = List.sort compare (List.map record_str rs)
+let record_str lvl r =
+  match lvl with
+  | RFull -> Printf.sprintf "%s/%s/%s/%d{%s}(%s)" (hex_of_n r.rc_trace) (hex_of_n r.rc_id) (hex_of_n r.rc_parent)
+               (int_of_n r.rc_name) (props_str r.rc_props) (String.concat ";" (List.map event_str r.rc_events))
+  | RCore -> Printf.sprintf "%s/%s/%s/%d" (hex_of_n r.rc_trace) (hex_of_n r.rc_id) (hex_of_n r.rc_parent) (int_of_n r.rc_name)
+  | RIds -> Printf.sprintf "%s/%s/%s" (hex_of_n r.rc_trace) (hex_of_n r.rc_id) (hex_of_n r.rc_parent)
+  | RNone -> ""
+let records_sorted lvl rs = if lvl = RNone then [] else List.sort compare (List.map (record_str lvl) rs)
 let stats_str st =
   String.concat " " (List.sort compare (List.map (fun ((c, n), d) -> Printf.sprintf "%d:%d:%d" (int_of_n c) (int_of_n n) (int_of_n d)) st))
 
-let obs_str (o : obs) : string =
+let obs_str (pj : proj) (o : obs) : string =
   match o with
   | ONone -> "-"
   | OCall RUnit -> "u"
-  | OCall (RBool b) -> if b then "b1" else "b0"
-  | OCall (RCtx None) -> "c none"
-  | OCall (RCtx (Some ((t, s), b))) -> Printf.sprintf "c %s %s %d" (hex_of_n t) (hex_of_n s) (if b then 1 else 0)
-  | OCall (RRecords rs) -> "recs " ^ String.concat " " (List.map record_str rs)
+  | OCall (RBool b) -> if pj.bools then (if b then "b1" else "b0") else "b"
+  | OCall (RCtx None) -> if pj.ctxs then "c none" else "c"
+  | OCall (RCtx (Some ((t, s), b))) -> if pj.ctxs then Printf.sprintf "c %s %s %d" (hex_of_n t) (hex_of_n s) (if b then 1 else 0) else "c"
+  | OCall (RRecords rs) -> if pj.recs then "recs " ^ String.concat " " (List.map (record_str RFull) rs) else "recs"
   | OPanic _ -> "panic"
-  | OReport (rs, st, rv) -> Printf.sprintf "rep %s | st %s | recv %d" (String.concat " " (records_sorted rs)) (stats_str st) (int_of_n rv)
+  | OReport (rs, st, rv) ->
+    Printf.sprintf "rep %s%s" (String.concat " " (records_sorted pj.reports rs))
+      (if pj.stats then Printf.sprintf " | st %s | recv %d" (stats_str st) (int_of_n rv) else "")
   | OBad c -> Printf.sprintf "model-disabled(%d)" (int_of_n c)
 
 let split_ws s = List.filter (fun x -> x <> "") (String.split_on_char ' ' s)
@@ -170,6 +193,7 @@ type hist = {
 let oracles : (string * (sys -> (action * obs) list -> string list)) list ref = ref []
 
 let run_history (h : hist) (props : string list) stats =
+  let pj = proj_of (match props with p :: _ -> p | [] -> "") in
   let s0 = sys_init h.dbg (n_of_int h.ringcap) (n_of_int h.stackcap) (n_of_int h.qcap) in
   let acts = List.rev h.acts in
   let s = ref s0 in
@@ -180,7 +204,7 @@ let run_history (h : hist) (props : string list) stats =
       if not !disagreed then begin
         let (s', mo) = step !s a in
         s := s';
-        let ms = obs_str mo and cs = obs_str o in
+        let ms = obs_str pj mo and cs = obs_str pj o in
         if ms <> cs then begin
           disagreed := true;
           Printf.printf "DISAGREE %s step=%d action=[%s] code=[%s] model=[%s]\n" h.hid !idx raw cs ms
